@@ -77,6 +77,7 @@ func runC07(p *Prog, r *Report) {
 	r.Rule("D6-symmetric-guards", "a test made on one operand of a comparator is also made on the other")
 	r.Rule("D5-arbitrary-precision", "numeric components are never parsed with fixed-width integer parsing")
 	c07Precision(p, r)
+	cutsetDiscipline(p, r, "D5-arbitrary-precision", "semantic")
 	r.Rule("D1-bounds", "index/slice expressions proved in bounds or audited with invariant")
 	r.Rule("D1-discarded-ok", "no nil-on-failure result used with its ok/err discarded")
 	r.Rule("D1-assert", "no single-value type assertion")
